@@ -9,11 +9,13 @@ _EP_RULE = ("endpoint stream: ONE real endpoint whose peer is the harness (it an
             "messages it emitted (local port numbers renamed by first appearance), the dispatcher status (running/ok/reset/protocol/panic) and the "
             "connect outcomes are compared with the model; distinct = distinct input")
 PROP = {
-    "props_files": ["Props/C07.v", "Props/C07b.v"],
+    "props_files": ["Props/C07.v", "Props/C07b.v", "Props/C07c.v"],
     "jobs": [
         {"component": "endpoint", "comp_num": 7, "quick": 1600, "thorough": 60000, "timeout": 3000},
         {"component": "net", "comp_num": 70, "quick": 320, "thorough": 20000, "args": ["--stream", "0"], "timeout": 3000},
         {"component": "net", "comp_num": 70, "quick": 480, "thorough": 30000, "args": ["--stream", "7"], "timeout": 3000},
+        # the port-number allocator of a real connection, its allocate() futures polled and dropped by hand (Chmux/Alloc.v)
+        {"component": "alloc", "comp_num": 71, "quick": 3000, "thorough": 200000, "timeout": 3000},
     ],
     "design_ref": "DESIGN.md section 5, C07",
     "level_text": "Theorems (Coq, closed under the global context) on the endpoint model, for every interleaving incl. an arbitrary peer: allocated port "
